@@ -98,6 +98,25 @@ CLAIMED.update({
     note='Trusted: shim, z3, spsolve contract. Dense inputs only.',
     ref='DESIGN.md section 8 C08'),
 })
+CLAIMED.update({
+ 'C04': dict(
+    technique='symbolic execution of normalize/transpose/_row_normalize/_apply_prior_counts and bounded sweeps of _prinz_mle_py on symbolic real count matrices; eig as Perron contract; z3 QF_NRA (fresh-solver and external-z3 fallback)',
+    text='The builders run on dense count matrices whose entries (and prior counts) are real solver variables; z3 proves T = counts/row totals '
+         '(zero rows stay zero), returned counts, stationarity and normalisation of the populations, detailed balance for transpose and for '
+         "the MLE output after a bounded number of real sweeps, calculate_eq_probs=False => None, and that the caller's matrix is unchanged.",
+    note='Trusted: shim, z3 (two versions), eig/sqrt/log contracts. Outside: every scipy.sparse / np.matrix container clause (compiled containers '
+         'cannot hold solver terms), float rounding, convergence of the MLE iteration.',
+    ref='DESIGN.md section 8 C04'),
+ 'C16': dict(
+    technique='symbolic execution of MSM.fit against the composed function pipeline on symbolic assignments; eigenspectrum/timescales under the eig contract; ensemble propagation as polynomial identity; z3',
+    text='MSM.fit is executed on symbolic state sequences for every configuration in the bound (lag, builder, trim, sliding window, state '
+         'count) and z3 proves cell-wise equality with assigns_to_counts -> trim_disconnected -> builder run with the same arguments, and that '
+         'config reports them; eigenspectrum post-processing (order, leading value 1, normalised stationary first vector, n_eigs, left/right), '
+         'implied timescales = -lag/log(eigenvalue) and ensemble propagation = p.T^s are proved for small n.',
+    note='Trusted: shim, z3, eig/COO/SCC contracts. Outside: save/load round trip (file formats), ARPACK path, sparse containers (builders are '
+         'driven through the callable-method API on dense counts).',
+    ref='DESIGN.md section 8 C16'),
+})
 PENDING = 'check not built yet in this session (work in progress; see DESIGN.md section 8 for the plan)'
 NA = {}
 
